@@ -412,3 +412,37 @@ def pubsub_stall(name, transport="tcp", n=500, size=65536, uring=False):
                                               {"op": "recv_n", "sock": "good", "n": n, "timeout_ms": 4000}]},
                       {"name": "stalled", "ops": [{"op": "barrier", "name": "go", "parties": 3}, {"op": "connect", "sock": "stalled", "ep": "$ep"},
                                                  {"op": "sleep", "ms": 1000}]}]}
+
+
+# ---- PUSH fan (C13) --------------------------------------------------------------------
+def push_fan(name, transport="tcp", npull=3, stalled=(), n=300, size=2000, late_join=None, leave=None, sndhwm=16, first_send_before_peer=False):
+    """One PUSH (binds) and several PULLs that connect; pulls named in `stalled` complete the
+    handshake and never read. late_join: index of a pull that connects after half the messages;
+    leave: index of a pull that closes after a third of the run."""
+    ep = endpoint(transport, name)
+    socks = [{"name": "push", "type": "PUSH", "opts": [i32(SNDHWM, sndhwm), i32(SNDTIMEO, 15000)]}]
+    tasks = []
+    parties = npull + 1
+    push_ops = [{"op": "bind", "sock": "push", "ep": ep, "save": "ep"}, {"op": "barrier", "name": "go", "parties": parties}]
+    if not first_send_before_peer:
+        push_ops.append({"op": "sleep", "ms": 500})
+    push_ops += [{"op": "send_n", "sock": "push", "prefix": "a", "n": n, "sizes": [size], "timeout_ms": 20000, "stop_on_err": True, "pace_us": 200},
+                 {"op": "mark", "name": "push_done"}]
+    tasks.append({"name": "push", "ops": push_ops})
+    for i in range(npull):
+        nm = "pull%d" % i
+        socks.append({"name": nm, "type": "PULL", "opts": [i32(RCVHWM, 16)]})
+        ops = [{"op": "barrier", "name": "go", "parties": parties}]
+        if first_send_before_peer:
+            ops.append({"op": "sleep", "ms": 400})
+        if late_join == i:
+            ops.append({"op": "sleep", "ms": 700})
+        ops.append({"op": "connect", "sock": nm, "ep": "$ep"})
+        if i in stalled:
+            ops.append({"op": "sleep", "ms": 200})
+        elif leave == i:
+            ops += [{"op": "recv_n", "sock": nm, "n": max(1, n // (3 * npull)), "timeout_ms": 3000}, {"op": "close", "sock": nm, "timeout_ms": 5000}]
+        else:
+            ops.append({"op": "recv_n", "sock": nm, "n": n, "timeout_ms": 2500})
+        tasks.append({"name": nm, "ops": ops})
+    return {"name": name, "deadline_ms": 90000, "sockets": socks, "tasks": tasks}
